@@ -80,6 +80,10 @@ def dups : List String → List String
   | [] => []
   | x :: xs => if xs.contains x then x :: dups xs else dups xs
 
+/-- the six filesystem extractors for which the `enab` tree of c19gen holds exactly one required file -/
+def enableFiles : List String :=
+  ["python/wheelegg", "python/requirements", "javascript/packagejson", "go/gomod", "rust/cargolock", "os/dpkg"]
+
 def handle (line : String) : String :=
   match line.splitOn " " with
   | ["val", r, c] =>
@@ -103,9 +107,17 @@ def handle (line : String) : String :=
     | some (t, _), some ns =>
       let must := boolStr (mode = "k" && ns.all (isKey t))
       if mode ≠ "k" && mode ≠ "r" then "bad-op" else
+      -- SPECIFICATION of resolving a LIST: the set union of the SINGLE resolutions, no plugin twice (`ResolvesTo`)
+      let singles := ns.map fun n => (n, fromNames t [n])
+      let isErr : String × Except String (List Plugin) → Bool := fun x => match x.2 with | .error _ => true | .ok _ => false
+      let sres := match singles.find? isErr with
+        | some (n, _) => s!"err:{hexE n}"
+        | none =>
+          let es := singles.flatMap fun (x : String × Except String (List Plugin)) => match x.2 with | .ok ps => ps.map entryStr | .error _ => []
+          s!"ok:{joinWith "," (sortStrs (es.foldl (fun acc e => if acc.contains e then acc else acc ++ [e]) []))}"
       match fromNames t ns with
-      | .ok ps => s!"res=ok:{joinWith "," (sortStrs (ps.map entryStr))} must={must}"
-      | .error n => s!"res=err:{hexE n} must={must}"
+      | .ok ps => s!"res=ok:{joinWith "," (sortStrs (ps.map entryStr))} must={must} sres={sres}"
+      | .error n => s!"res=err:{hexE n} must={must} sres={sres}"
     | _, _ => "bad-op"
   | ["name", k, n] =>
     match tablesOf? k, unhex? n with
@@ -148,6 +160,36 @@ def handle (line : String) : String :=
         | .invalid bad => s!"res=invalid:{joinWith "," (sortStrs (bad.map hexE))} fs=- st=- scan=prefail must={must}"
       | _, _, _ => "res=badname fs=- st=- scan=- must=0"
     | _, _, _, _, _ => "bad-op"
+  -- auto-enabling observed through a real Scan (harness/cmd/c19gen/enable.go). Model: `enableRequired` over the regenerated
+  -- tables. SPECIFICATION (sen): explicit lists, then the required names not enabled yet, each once, in order of first
+  -- occurrence (`firstNew`), in the list(s) whose table knows the name; one Extract call per enabled extractor that has a
+  -- file in the tree, no package twice, one status entry per enabled plugin
+  | ["enab", fsx, stx, ds] =>
+    match namesOf? fsx, namesOf? stx, (ds.splitOn "|").mapM namesOf? with
+    | some fsx, some stx, some reqs =>
+      let one := fun (t : Table) (n : String) => match fromName t n with | .ok p => some p | .error _ => none
+      match fsx.mapM (one fsNames), stx.mapM (one stNames) with
+      | some fs, some st =>
+        let dets : List Plugin := (reqs.zip (List.range reqs.length)).map fun (r, i) => ⟨s!"fd{i}", ⟨.any, .any, false, false⟩, r⟩
+        let enStr := fun (a b : List String) => joinWith "," (a.map hexE) ++ "|" ++ joinWith "," (b.map hexE)
+        -- specification, on names
+        let fresh := firstNew (fsx ++ stx) (reqs.flatMap id)
+        let unknown := fresh.find? fun n => (one fsNames n).isNone && (one stNames n).isNone
+        let sfs := fsx ++ fresh.filter fun n => (one fsNames n).isSome
+        let sst := stx ++ fresh.filter fun n => (one stNames n).isSome
+        let cnt := fun (xs : List String) => joinWith "," (sortStrs (xs.map fun n => s!"{hexE n}:1"))
+        let spec := match unknown with
+          | some n => s!"sres=missing:{hexE n} sen=-|- scalls=- sstat=-"
+          | none => s!"sres=ok sen={enStr sfs sst} scalls={cnt (sfs.filter enableFiles.contains)} " ++
+                    s!"sstat={cnt (sfs ++ sst ++ dets.map (fun (d : Plugin) => d.name))}"
+        match enableRequired fsNames stNames fs st dets with
+        | .ok c =>
+          let f := c.fs.map (·.name)
+          s!"res=ok en={enStr f (c.st.map (·.name))} calls={cnt (f.filter enableFiles.contains)} dup=0 " ++
+          s!"stat={cnt (f ++ c.st.map (·.name) ++ dets.map (fun (d : Plugin) => d.name))} scan=ok {spec}"
+        | .error e => s!"res=missing:{hexE e} en=-|- calls=- dup=0 stat=- scan=failed {spec}"
+      | _, _ => "res=badname"
+    | _, _, _ => "bad-op"
   | ["pref", c, dr, ns] =>
     match capsOf? c, capsOf? dr, namesOf? ns with
     | some c, some dr, some ns =>
